@@ -45,6 +45,10 @@ int muggle_sowr_memory_pool_init(muggle_sowr_memory_pool_t *pool, muggle_sync_t 
 #else
 	pool->blocks = malloc(pool->block_size * pool->capacity);
 #endif
+	if (pool->blocks == NULL)
+	{
+		return MUGGLE_ERR_MEM_ALLOC;
+	}
 	pool->alloc_idx = 0;
 	pool->free_idx = 0;
 	pool->cached_free_pos = pool->capacity - 1;
